@@ -15,6 +15,8 @@ pub mod reqid;
 pub mod snmp;
 mod socket;
 mod util;
+#[cfg(feature = "verif")]
+pub mod verif;
 
 /// Module index
 #[pymodule]
